@@ -27,7 +27,7 @@ type Emb struct {
 // container payloads.
 type Rec struct {
 	sod.Item
-	K   string    `sod:"unique,upper"`
+	K   string    `sod:"index,unique,upper"`
 	N   int64     `sod:"unique"`
 	A   int       `sod:"index"`
 	U16 uint16    `sod:"index"`
